@@ -141,7 +141,9 @@ def defl_cov(rule, expl):
              "flush_points_checked": int(st.get("flush_points_checked", 0)), "full_flush_points": int(st.get("full_flush_points", 0)), "full_flush_suffixes_over_1k": int(st.get("full_flush_suffixes_1k", 0)),
              "state_transitions_observed": dict(sorted(agg.cnts.get("state_transitions", {}).items())),
              "tmp_state_resume_points": dict(sorted(agg.cnts.get("tmp_state_resume_points", {}).items()))}
-        for k in ("invalid_params", "dict_wrong_state", "oneshot"):
+        if st.get("inflate_dict_calls_refused"):
+            c["inflate_set_dict_calls_refused_while_block_open"] = int(st["inflate_dict_calls_refused"])
+        for k in ("invalid_params", "dict_wrong_state", "oneshot", "inflate_dict_probe_states"):
             if k in agg.cnts:
                 c[k] = dict(sorted(agg.cnts[k].items()))
         return c
@@ -189,6 +191,7 @@ def run_C14(ctx):
 
 def run_C17(ctx):
     ctx.run("asm", "eng_deflate.c")
+    ctx.run("asm", "eng_inflate.c", scale=0.5)      # decompression side: dictionary calls while a block is open
     ctx.run("hist8k", "eng_deflate.c", scale=0.15)
     ctx.run("longer", "eng_deflate.c", scale=0.15)
     if ctx.thorough:
@@ -205,7 +208,7 @@ def infl_cov(rule, expl):
              "mutants_still_valid_and_accepted": int(st.get("mutants_still_valid_and_accepted", 0)),
              "rejected_by_isal_but_only_the_lenient_reference_accepts": int(st.get("rejected_but_reference_lenient", 0)),
              "trailer_straddling_histories": int(st.get("trailer_straddling_histories", 0)), "need_dict_flows": int(st.get("need_dict_flows", 0))}
-        for k in ("stream_source", "decodes_per_mode", "return_codes", "resume_block_states", "faults_detected", "faults_with_documented_class", "block_type_pairs", "flip_region", "systematic_split_streams"):
+        for k in ("systematic_header_flip_streams", "stream_source", "decodes_per_mode", "return_codes", "resume_block_states", "faults_detected", "faults_with_documented_class", "block_type_pairs", "flip_region", "systematic_split_streams"):
             if k in agg.cnts:
                 c[k] = dict(sorted(agg.cnts[k].items()))
         return c
@@ -436,7 +439,7 @@ PROPS = {
         coverage=infl_cov(
             "hostile inputs: pure random bytes (with and without valid magic), 14 grammar-level fault classes injected by the generator with 80 bytes of trailing input (BTYPE=3, LEN/NLEN, HLIT/HDIST>29, over-subscribed code-length / lit-len / distance sets, repeat without previous, repeat overrun, missing EOB code, symbols 286/287, distance 30/31, unassigned code of an incomplete set, distance beyond output), and single-bit flips / byte substitutions / truncations / trailer edits of valid streams from all three sources; each decoded stateless with output sizes {0,1,7,8,exact-1,exact,exact+1,big} and streaming with random chunking in fresh guard-page mappings, in every wrapper mode, on the assembly build and the all-C ASan+bounds build; distinct by hash of the mutated stream",
             "a 'finished' result is accepted only if the independent decoder also decodes the stream (lenient exactly where RFC 1951 is) to the same bytes and, in verifying modes, the stored trailer matches; return codes must be documented ones; every call must make progress or report; injected single faults must return the documented class; ISA-L refusing what only the lenient reference accepts is counted, not alarmed (alarmed when zlib accepts it too)"),
-        floors=infl_floor(8000, lambda ctx, agg: (["fault classes detected: %d of 13" % len(agg.cnts.get("faults_detected", {}))] if len(agg.cnts.get("faults_detected", {})) < 13 else []) + (["negative return codes seen: %s" % sorted(k for k in agg.cnts.get("return_codes", {}) if k.startswith("-"))] if len([k for k in agg.cnts.get("return_codes", {}) if k.startswith("-")]) < 6 else [])),
+        floors=infl_floor(8000, lambda ctx, agg: (["fault classes detected: %d of 14" % len(agg.cnts.get("faults_detected", {}))] if len(agg.cnts.get("faults_detected", {})) < 14 else []) + (["negative return codes seen: %s" % sorted(k for k in agg.cnts.get("return_codes", {}) if k.startswith("-"))] if len([k for k in agg.cnts.get("return_codes", {}) if k.startswith("-")]) < 6 else [])),
         assumptions=["HDIST 30/31 is refused by ISA-L and zlib but not forbidden by RFC 1951: only the returned class is compared", "reserved gzip FLG bits and zlib CINFO > 7 are not treated as errors by the oracle (the property does not claim them)"],
     ),
     "C10": dict(
@@ -460,7 +463,7 @@ PROPS = {
         coverage=defl_cov(
             "inputs with a phrase repeated at distances 2^w-2..2^w+2, 32766..32770, 65534..65538 and random, w = hist_bits 9..15 (and 0), all levels, one-shot and streaming with random chunking, flush modes; half of the cases use a preset dictionary (length 1..70000, set directly or via process_dict+reset_dict) with data quoting the dictionary tail and the part beyond the window; every 12th case a dictionary call in a wrong state (mid-block, level changed); distinct by hash of (parameters, output)",
             "instrumented reference decode reports the maximum match distance: must be <= 2^w and <= 32768, never before the start of output+dictionary; zlib CINFO must cover the window; dictionary streams decoded by the reference primed with the same dictionary (and zlib inflateSetDictionary for raw streams); wrong-state dictionary calls must fail and leave the stream struct byte-identical"),
-        floors=defl_floor(1500, lambda ctx, agg: [] if len(agg.cnts.get("dict_wrong_state", {})) >= 3 else ["dictionary wrong-state classes %s" % sorted(agg.cnts.get("dict_wrong_state", {}))]),
+        floors=defl_floor(1500, lambda ctx, agg: ([] if len(agg.cnts.get("dict_wrong_state", {})) >= 3 else ["dictionary wrong-state classes %s" % sorted(agg.cnts.get("dict_wrong_state", {}))]) + ([] if agg.stats.get("inflate_dict_calls_refused", 0) >= 300 else ["inflate dictionary probes %d" % agg.stats.get("inflate_dict_calls_refused", 0)])),
         assumptions=["window of the hist8k/LONGER_HUFFTABLE builds is 8 KiB"],
     ),
     "C01": dict(
